@@ -14,7 +14,7 @@ CHECKS = {
          "trusted: ref/hash.go (own signed FNV-1a, MurmurHash3-x86-32, bitwise CRC), Go's hash/crc32, the published test vectors in ref/vectors.go",
          "runtime differential oracle against independent reference implementations (plain + asan builds)"),
  "C09": ("fault_enumeration",
-         "Round trip through both record writers compared byte-for-byte with an independent encoder, then a corruption campaign: for every file image up to 4 KB every byte position x {bit flip, 0x00, 0xff} and truncation at every length (exhaustive per image), sampled positions for larger images, multi-byte damage, zeroed blocks and size-field damage; an independent decoder labels each record intact/damaged and the oracle checks positional reads and the sequential scan. Fault enumeration per generated image, images sampled.",
+         "Round trip through both record writers compared byte-for-byte with an independent encoder, then a corruption campaign: for every file image up to 4 KB every byte position x {bit flip, 0x00, 0xff} and truncation at every length (exhaustive per image), sampled positions for larger images, multi-byte damage, zeroed blocks and size-field damage; an independent decoder labels each record intact/damaged and the oracle checks positional reads and the sequential scan; for one damaged image in eight the records a second scan yields are re-written through the stream writer (what GC does with a source) and the copy must be the reference encoding of exactly the intact records, every returned offset aligned and readable by position. Fault enumeration per generated image, images sampled.",
          "DESIGN.md section 4 (C09)",
          "trusted: ref/record.go (documented record layout), hash/crc32; CRC collisions (2^-32) ignored",
          "fault injection (byte/bit corruption, truncation) with a reference-decoder oracle over positional and streaming reads (plain + asan builds)"),
@@ -29,7 +29,7 @@ CHECKS = {
          "trusted: ref.RefMap (version arithmetic written from the property), ref value generator; open dimensions (incr versions, tombstones after rebuild) adopted",
          "reference-model monitor (RefMap oracle) over generated histories, in-process at the StorageClient boundary"),
  "C02": ("exploration",
-         "C01 histories with clean restarts at generated positions; at each restart the closed directory is reopened once per index-file subset (exhaustive 2^k when k<=6 in thorough) and every variant compared with the reference map; plus deterministic and randomized shutdown schedules: the post-rotation flush goroutine parked at its entry hook while Close() completes (directory copied at that instant), and flusher/hint-dumper loop bodies racing with Close under yield injection (plain and race builds).",
+         "C01 histories with clean restarts at generated positions; at each restart the closed directory is reopened once per index-file subset (exhaustive 2^k when k<=6 in thorough) and every variant compared with the reference map; plus deterministic and randomized shutdown schedules: the post-rotation flush goroutine parked at its entry hook while Close() completes (directory copied at that instant), and flusher/hint-dumper loop bodies racing with Close under yield injection (plain and race builds). The server's own graceful shutdown is exercised with the real memcache.Server on loopback TCP (Main's sequence: Shutdown as the signal handler calls it, Serve returns, HStore.Close; the directory is copied when Close returns): clients write all the time, connections that are idle at the signal write again when Serve has returned or at the 1st..3rd file-system step of Close; every set acknowledged before Close returned must be served after reopening the copy.",
          "DESIGN.md section 4 (C02)",
          "restart = fresh store instance on a copy of the directory taken when Close returns (same process, globals re-initialised by NewHStore); tombstone versions adopted after restart as the quantifier allows",
          "reference-model monitor + index-file fault enumeration + hook-controlled shutdown schedules (park/release, yield injection) + race detector"),
@@ -54,7 +54,7 @@ CHECKS = {
          "trusted: ref/merkle.go (hash, count and listing rules written from the documented behaviour), ref.KeyHash/ValueHash (validated by C16)",
          "differential runtime oracle: reference recomputation + history-independence comparison of real trees/stores"),
  "C10": ("exploration",
-         "Store level: values on both sides of every compression decision threshold (record size 256, 10 KB probe, ratio, sniffed audio types, client-compressed flag, up to 4 MB) set and read back from the write buffer, the flushed file and after restarts with rebuilt indexes, judged by the reference map; the stored record is inspected to report which way the server decided. Codec level: C<->Go round trips in both directions. Hostile input: random, mutated, truncated and self-consistent-header streams fed to both safe decompressors in an asan-instrumented child (recover mode, every report classified).",
+         "Store level: values on both sides of every compression decision threshold (record size 256, 10 KB probe, ratio, sniffed audio types, client-compressed flag, up to 4 MB) set and read back from the write buffer, the flushed file and after restarts with rebuilt indexes, judged by the reference map; the stored record is inspected to report which way the server decided. Codec level: C<->Go round trips in both directions, including a value class whose only repeat lies at an exact boundary distance (255 .. 262145 bytes back: window and offset-field limits of the compressors). Hostile input: random, mutated, truncated and self-consistent-header streams fed to both safe decompressors in an asan-instrumented child (recover mode, every report classified).",
          "DESIGN.md section 4 (C10)",
          "asan instruments quicklz.c; QuickLZ's word-wise source fetch (fast_read, <= 3 bytes past the source) is classified informational, every other report is a violation; hostile claimed sizes capped at 16 MB",
          "reference-model monitor + cross-implementation differential + AddressSanitizer on hostile inputs"),
@@ -64,7 +64,7 @@ CHECKS = {
          "trusted: ref.KeyHash/BucketOf, ref/merkle.go",
          "file-system inventory monitor + reference routing oracle"),
  "C11": ("exploration",
-         "The real per-connection server loop backed by the real StorageClient on an instrumented in-memory connection (knows when the server is blocked reading an empty input). Grammar streams (all verbs of the property, special '@'/'?' keys of every length, binary bodies, pipelined in chunkings from 1 byte to all at once) under a strict oracle: exactly one syntactically valid reply per command in order (independent reply parser), none for noreply, values and flags equal to the reference map; mutated streams under the weaker oracle (no wedge, syntactically valid output, later connections unaffected); request/response serialise-parse round trips.",
+         "The real per-connection server loop backed by the real StorageClient on an instrumented in-memory connection (knows when the server is blocked reading an empty input). Grammar streams (all verbs of the property, special '@'/'?' keys of every length, binary bodies, command lines up to more than 8 KB (multi-get of up to 90 keys), pipelined in chunkings from 1 byte to all at once) under a strict oracle: exactly one syntactically valid reply per command in order (independent reply parser), none for noreply, values and flags equal to the reference map; mutated streams under the weaker oracle (no wedge, syntactically valid output, later connections unaffected); request/response serialise-parse round trips.",
          "DESIGN.md section 4 (C11)",
          "in-memory net.Conn instead of TCP; timeout_ms raised so wall-clock timeout replies cannot fire; a memory-shortage refusal (NOT_STORED) of a large set is accepted as a legitimate reply",
          "online protocol monitor: independent reply-grammar parser + reference map over generated and mutated byte streams; logical-quiescence detection instead of timeouts"),
@@ -74,28 +74,28 @@ CHECKS = {
          "quiescence is logical (server goroutine blocked in Read on empty input, forced flush done, background hook counters balanced); client flags carrying the server-reserved bit are excluded as the property states",
          "conservation monitor over hooked allocator state and published counters at logical quiescence, per-command attribution; race detector + AddressSanitizer on the same workloads"),
  "C04": ("exploration",
-         "Concurrent histories recorded at the HStore boundary with a global logical clock, self-describing values and poison-on-free; per key two independent checkers (version rules, porcupine with a sequential register model); background flusher and hint dumper loops and rotations run beside the clients; schedule reach from seeded yield/sleep injection at the store's hook points and 9 deterministic park/release orderings over append, publication to the write buffer, tree update, flush write, buffer detach, buffer free and read-by-position; the four buffer counters must be zero at quiescence after every history and ordering; the same workloads under -race (reports classified by racing source line against a list of protected objects) and -asan.",
-         "DESIGN.md sections 4 (C04) and 5",
+         "Concurrent histories recorded at the HStore boundary with a global logical clock, self-describing values and poison-on-free; per key two independent checkers (version rules, porcupine with a sequential register model); background flusher and hint dumper loops and rotations run beside the clients; schedule reach from seeded yield/sleep injection at the store's hook points and 9 deterministic park/release orderings over append, publication to the write buffer, tree update, flush write, buffer detach, buffer free and read-by-position; the four buffer counters must be zero at quiescence after every history and ordering; the same workloads under -race (reports classified by racing source line against a list of protected objects) and -asan. The same property is also recorded at the text-protocol boundary: 2..10 connections on the real per-connection server loop issue set / delete / get / multi-get / meta-get on shared keys, replies parsed by the independent reply parser, per-key histories checked by porcupine with a register model whose writes report no version, accounting and tokens checked at quiescence (plain, race, asan).",
+         "DESIGN.md sections 4 (C04), 5 and 15",
          "Go scheduler not controlled (random-schedule cases are statistical; evidence reports distinct schedule signatures); C-memory races only via asan/poison",
          "history recording + offline linearizability checking (rules + porcupine), hook-based schedule perturbation and park/release, race detector, AddressSanitizer"),
  "C05": ("exploration",
-         "C04 recorder and checkers with one GC pass beside the clients (legal range, merge on/off, optional cancel at a file-boundary hook), final read-back, then restart with an index subset removed and a read-back against the last acknowledged write per key; 36 deterministic placements of a client set/delete/get at GC's per-record steps for the same key (GC goroutine parked at the hook) and 2 orderings in which the periodic hint dumper is parked inside a chunk that the pass is about to clear.",
+         "C04 recorder and checkers with one GC pass beside the clients (legal range, merge on/off, optional CancelGC placed at any of GC's hook points: before the first file, at later file boundaries and at every per-record step), final read-back, then restart with an index subset removed and a read-back against the last acknowledged write per key; 48 deterministic placements of a client set/delete/get/CancelGC at GC's per-record steps for the same key (GC goroutine parked at the hook), 8 placements of a client set of a key with the SAME 64-bit hash as the record being relocated, and 2 orderings in which the periodic hint dumper is parked inside a chunk that the pass is about to clear.",
          "DESIGN.md section 4 (C05)",
          "read errors while a position is being relocated are counted, not judged (documented 'omit it' behaviour); the hint dumper loop is left out of the race build (GC vs dumper data races are listed in DESIGN.md as observed, outside the property)",
          "history recording + offline linearizability checking, deterministic park/release placements at GC hook points, race detector, AddressSanitizer"),
  "C17": ("exploration",
-         "Eligibility: generated stores (1..6 small files, controlled first-record timestamps, gaps, three head states) x request tuples (start, end, no_gc_days, merge, pretend, incl. negatives and out-of-range ids); inventory (sha1) and FS-mutation hook log around every request; reference resolution of the range; a real pass may change only files inside the resolved range plus one earlier file that never shrinks, never the head, and only files the age limit allows. Single pass: overlap detector on gc.enter/gc.exit; four two-request schedules (back-to-back, concurrent, first parked after its check, first parked inside its pass), also under -race.",
+         "Eligibility: generated stores (1..6 small files, controlled first-record timestamps, gaps, three head states) x request tuples (start, end, no_gc_days, merge, pretend, incl. negatives and out-of-range ids); a third of the requests go through the admin web handler (gobeansdb/web.go handleGC via httptest, defaults left out, dry run unless run=true); inventory (sha1) and FS-mutation hook log around every request; reference resolution of the range; a real pass may change only files inside the resolved range plus one earlier file that never shrinks, never the head, and only files the age limit allows. Single pass: overlap detector on gc.enter/gc.exit; six request schedules (back-to-back, concurrent, first parked after its check, first parked inside its pass, 2..5 further requests of different shapes while a pass is parked at its first file, 3..6 concurrent requests), also under -race.",
          "DESIGN.md section 4 (C17)",
          "timestamps hours away from the no_gc_days boundary (the code reads the wall clock); record size at most half the data-file limit",
          "inventory + hook-log monitor with reference range oracle; hook-based overlap detector with park/release schedules; race detector"),
  "C06": ("fault_enumeration",
-         "Every file-system mutation boundary of generated histories becomes a crash state: a hook copies the bucket directory before and after every hooked mutation under one mutex (plus torn variants of every data write at each 256-byte boundary and 3 unaligned cuts); a fresh process opens each snapshot and must serve, per key, exactly the newest intact record an independent scanner finds in the snapshot's data files, or refuse to start only when a data file ends in a partial record.",
-         "DESIGN.md section 4 (C06)",
+         "Every file-system mutation boundary of generated histories becomes a crash state: a hook copies the bucket directory before and after every hooked mutation under one mutex (plus torn variants of every data write at each 256-byte boundary and 3 unaligned cuts); a fresh process opens each snapshot and must serve, per key, exactly the newest intact record an independent scanner finds in the snapshot's data files, or refuse to start only when a data file ends in a partial record. Stage 2: every 12th served snapshot (5th in thorough) and every snapshot whose index files describe more than the data files hold is continued - the recovered store takes further writes and flushes with the snapshot hook still active (a second kill at every mutation of recovery, continuation and clean Close), is closed and a copy reopened; second-level snapshots are judged by the same oracle, the reopened copy by what recovery served plus the acknowledged stage-2 writes.",
+         "DESIGN.md sections 4 (C06) and 15",
          "crash model SIGKILL = prefix of completed syscalls (no reordering, no power loss); writes to *.tmp files are not hooked; Go QuickLZ decoder used to read server-compressed records from disk",
          "crash-point enumeration by directory snapshots at hooked FS mutations + recovery in a fresh process + reference-scanner oracle"),
  "C07": ("fault_enumeration",
-         "Same snapshot machinery around one GC pass (after every relocated record, truncate, source/hint removal, hint tmp create/rename, nextgc.txt, collision file; torn variants of relocated-record writes) over generated layouts and legal ranges (destination earlier file / in place / fresh); a fresh process on every snapshot must serve exactly the pre-GC model.",
-         "DESIGN.md section 4 (C07)",
+         "Same snapshot machinery around one GC pass (after every relocated record, truncate, source/hint removal, hint tmp create/rename, nextgc.txt, collision file; torn variants of relocated-record writes) over generated, staged and directed layouts and legal ranges (destination in place / fresh / an earlier non-full file / an earlier file that fills up so that the destination switches into the range or onto the source being read; observed through the GC hooks); a fresh process on every snapshot must serve exactly the pre-GC model. Stage 2: sampled recovered stores run the interrupted pass again (or another legal one), are killed a second time at every mutation, closed and reopened; all read-backs must still equal the pre-GC model.",
+         "DESIGN.md sections 4 (C07) and 15",
          "as C06; no client writes during the pass",
          "crash-point enumeration inside GC + recovery in a fresh process + pre-GC reference model oracle"),
 }
